@@ -250,3 +250,24 @@ META['C12'] = dict(
     technique='runtime monitoring: online wire monitor of reply options and transaction conformance per capture state, virtual time',
     level_text='Exploration (same histories as C11): every OFFER/ACK must carry the options of the subnet selected by the capture state at that moment, echo xid/chaddr, and an ACK must confirm the offer of this transaction or the current lease; un-honourable requests must get NAK or silence.',
     level_note='Trusted base: as C11; the monitor knows the capture state because the harness toggles it.')
+
+PROPS['C18'] = dict(
+    runs=[run('plain')], shards=16, watchdog=True, level='fault_enumeration',
+    rule=('(restart) DHCP histories that acknowledge, renew, decline, release and expire leases under capture toggles (synctest bubbles, real lease file); at the end the saved file must hold exactly '
+          'the acknowledged (client id, IP) bindings of the wire monitor\'s shadow table, a new handler constructed from it must rewrite the same bindings, ACK the renewal of every bound client '
+          'and not offer a bound address to a new client. (damage) for lease files saved after ACKs of 5 (quick) / 60 (thorough) histories: every prefix (each byte offset = crash point of the '
+          'truncate-and-write), single-byte substitutions from {00, space, LF, colon, dash, 9, x, ff} at 250 sampled (quick) / all (thorough) offsets, deletion and duplication of every line, structured '
+          'faults (state 0/1/3, ip moved to network/broadcast/other subnet/off-LAN/garbage, blocks renamed/removed/swapped, lease duplicated under another client id, client id removed/emptied, empty, '
+          'non-YAML, random bytes); dhcp4_spoofer.Config.New is run on each damaged file in a killable worker and the bindings it loads are read from the file it rewrites at construction: allowed '
+          'outcomes are the intact set or none. Non-trivial = a fault whose file still parses as YAML; distinct = (fault kind, YAML path of the fault site, outcome class)'),
+    assumptions=['the harness reads lease files with its own YAML struct (gopkg.in/yaml.v2), not with the handler\'s loader',
+                 'the restarted handler shares the session (capture state lives in the session)', 'MinuteTicker runs after a restart before the probes (documented usage)'],
+    exhaustive={'quick': False, 'thorough': True}, exhaustive_note='thorough enumerates every prefix, every listed substitution at every offset and every line fault of each snapshot; quick samples the substitution offsets',
+    min_obs={'quick': {'restarts_checked': 300, 'renewals_after_restart': 300, 'lease_file_snapshots': 3, 'outcome:empty': 500, 'outcome:intact': 50},
+             'thorough': {'restarts_checked': 300}},
+    timeout={'quick': 1200, 'thorough': 8*3600},
+)
+META['C18'] = dict(
+    technique='runtime fault injection: enumerated lease-file damage (every crash prefix, byte substitutions, line and structured faults) fed to the real loader in killable workers; restart probes on virtual time',
+    level_text='Fault enumeration: every crash point of the non-atomic rewrite (every prefix) and the listed substitution / line / structured faults of lease files produced by real DHCP histories are loaded by the real constructor; plus restart probes (renewals, new client) after ~1.5*10^3 (quick) / 6*10^4 (thorough) histories.',
+    level_note='Bindings are observed through the file the handler rewrites at construction and through probe replies; the fault model is single faults on files as written by the handler.')
